@@ -107,7 +107,14 @@ func drawSubmission(t *rapid.T, key []byte, centre, skew uint64, digits, algo in
 		skew = 3 // refused windows: still submit real codes near the centre
 	}
 	span := int(skew) + 3
-	switch rapid.IntRange(0, 9).Draw(t, "subKind") {
+	switch rapid.IntRange(0, 11).Draw(t, "subKind") {
+	case 10: // the genuine code of a window counter under ANOTHER code length (a validator that infers the length from the code accepts it)
+		d := rapid.IntRange(-int(skew), int(skew)).Draw(t, "sdist")
+		od := rapid.SampledFrom([]int{6, 8, 8, 10, 7, 9, 4, 5, 1}).Draw(t, "sibDigits")
+		return []byte(ref.MustHOTP(key, centre+uint64(int64(d)), od, algo)), "sibling-digits"
+	case 11: // ... under another hash
+		d := rapid.IntRange(-int(skew), int(skew)).Draw(t, "sdist")
+		return []byte(ref.MustHOTP(key, centre+uint64(int64(d)), digits, (algo+1+rapid.IntRange(0, 1).Draw(t, "sibHash"))%3)), "sibling-hash"
 	case 0:
 		return []byte(ref.MustHOTP(key, centre, digits, algo)), "dist0"
 	case 1, 2, 3, 4:
